@@ -110,6 +110,13 @@ theorem trie_add_new_iff (t : Trie) (p : String) : (t.add p).2 = true ↔ t.coun
   simp only [Trie.add, Trie.count]
   exact addLevel_new_iff p (splitTopic p) (splitTopic_ne_nil p) t.root
 
+/-- **trie_abs (Len).** `Len()` (a counter bumped on 0 → 1 and 1 → 0 transitions) equals the number of
+referenced nodes of the tree, i.e. of distinct registered patterns (a referenced node stores the
+pattern spelling its own path, `match_exact` / `WF`). -/
+theorem trie_len (t : Trie) (h : t.Reachable) : t.size = liveLevel t.root := h.size_eq
+
+example : (((Trie.empty.add "a/b").1.add "a/b").1.add "a/*").1.size = 2 := by decide
+
 /-- **trie_abs (pruning).** In a reachable trie no unreferenced childless node survives: if no
 pattern is registered any more, the trie is structurally empty. -/
 theorem trie_pruned (t : Trie) (h : t.Reachable) (hz : ∀ q : List String, refsAt t.root q = 0) :
